@@ -104,6 +104,7 @@ class G:
 # --------------------------------------------------------------------------- op templates
 
 CONST_KINDS = ["normal", "normal", "normal", "pos", "neg", "small", "const", "big", "tiny", "rowtiny"]
+HUGE_KINDS = CONST_KINDS + ["huge", "huge", "huge"]   # magnitudes around the float16 overflow threshold (65504 / 65520)
 BENIGN_KINDS = ["normal", "normal", "normal", "pos", "neg", "small", "const", "big"]
 
 
@@ -131,6 +132,8 @@ def _const(rng, shape, kind=None, kinds=None):
             if shape[0] > 1:
                 a[-1] = 0.0
             a = a.reshape(-1)
+    elif kind == "huge":
+        a = r.choice([65504.0, 65519.0, 65520.0, 65536.0, 7e4, 1e5, 3e4, 1.0], size=n) * r.choice([-1.0, 1.0], size=n)
     else:
         a = r.randn(n) * 50
     return a.astype(np.float32).reshape(shape)
@@ -484,7 +487,7 @@ class Grower:
 
 
 def grow_subgraph(g: G, rng, n_ops, prefix="", sig=None, kinds=None, share=0.0, shared_consts=None, p_unsupported=0.25,
-                  name_hazard=0.0, extra_outputs=0.3, allow_dead=0.1, const_output=0.0, const_kinds=None, alias_sig=None):
+                  name_hazard=0.0, extra_outputs=0.3, allow_dead=0.1, const_output=0.0, const_kinds=None, alias_sig=None, bool_mask=0.06, sig_names=None):
     g.subgraph(name=(prefix or "main").encode())
     gr = Grower(g, rng, prefix, shared_consts)
     gr.const_kinds = const_kinds
@@ -531,6 +534,16 @@ def grow_subgraph(g: G, rng, n_ops, prefix="", sig=None, kinds=None, share=0.0, 
         if consts:
             outs.append(rng.choice(consts))
             gr.tags.add("const_is_output")
+    if bool_mask and rng.random() < bool_mask and gr.produced:
+        # a BOOL tensor exported as graph output (e.g. a mask computed by GREATER): non-float runtime tensors must be carried through
+        src = rng.choice(gr.produced)
+        shp = [int(v) for v in sg.tensors[src].shape]
+        if sg.tensors[src].type == TT.FLOAT32 and len(shp) >= 1:
+            thr = g.tensor(gr.name("thr"), [1] * len(shp), data=np.zeros([1] * len(shp), np.float32))
+            mask = g.tensor(gr.name("mask"), shp, TT.BOOL)
+            g.op(BO.GREATER, [src, thr], [mask])
+            outs.append(mask)
+            gr.tags.add("bool_output")
     rng.shuffle(outs)
     # drop unused inputs (interpreter is fine with them, but keep graphs tidy): keep all
     if name_hazard and rng.random() < name_hazard and gr.produced:
@@ -558,7 +571,7 @@ def gen_model(rng, n_ops=None, n_subgraphs=1, kinds=None, share=0.0, own_buffers
     for i in range(n_subgraphs):
         n = n_ops if n_ops is not None else rng.randint(1, 6)
         prefix = "" if n_subgraphs == 1 and rng.random() < 0.5 else f"s{i}/"
-        sig = f"sig{i}" if n_subgraphs > 1 else "serving_default"
+        sig = f"sig{i}" if n_subgraphs > 1 else rng.choice(["serving_default", "serving_default", "serving_default", "encode"])
         gr = grow_subgraph(g, rng, n, prefix=prefix, sig=sig, kinds=kinds, share=share, shared_consts=shared, **kw)
         info["tags"] |= gr.tags
         info["subgraphs"].append({"sig": sig, "int_inputs": [(g.sg.tensors[t].name.decode(), v) for t, v in gr.int_inputs], "ops": gr.op_kinds})
@@ -659,6 +672,18 @@ def gen_tied(rng, shared_bias=0.0):
                 gr.out(z, [g.sg.tensors[x].shape[0], o])
                 outs[-1] = z
                 kinds.append("UNARY")
+        if rng.random() < 0.35:
+            # tied embedding: the SAME table tensor is looked up and used as projection weights
+            n = rng.randint(1, 3)
+            ids = g.tensor(gr.name("ids"), [n], TT.INT32)
+            gr.inputs.append(ids)
+            gr.int_inputs.append((ids, o))
+            e = gr.new_act([n, f])
+            g.op(BO.EMBEDDING_LOOKUP, [ids, w0], [e])
+            gr.out(e, [n, f])
+            outs.append(e)
+            kinds.append("EMBEDDING_LOOKUP")
+            info["tags"].add("tied_embedding")
         if rng.random() < 0.4:
             # the shared constant also feeds an elementwise op directly
             c = g.tensor(gr.name("wt"), [o, f], buffer=shared_buf) if rng.random() < 0.5 else w0
